@@ -2206,6 +2206,8 @@ def selftest(with_lean):
                 if not re.search(expect, str(r)):
                     print("selftest: refused for another reason: %s: %s" % (body, r))
                     ok = False
+        import rs2lean_cf                      # dialect "cf": its own snippets
+        ok = rs2lean_cf.selftest(with_lean, tmp) and ok
     finally:
         shutil.rmtree(tmp, ignore_errors=True)
     print("selftest: " + ("ok" if ok else "FAILED"))
